@@ -61,3 +61,14 @@ impl AnyStorage {
         entries.remove(&key)
     }
 }
+
+/// Verification hooks (add-only, compiled only with `--cfg remoc_verif`).
+#[cfg(remoc_verif)]
+#[allow(missing_docs, dead_code)]
+pub mod verif_hooks {
+    use super::*;
+
+    pub fn storage_new() -> AnyStorage {
+        AnyStorage::new()
+    }
+}
